@@ -338,6 +338,15 @@ class WritableVersion(dns.zone.WritableVersion):
                 self.delegations.add(name)
                 self.update_glue_flag(name, True)
         node.replace_rdataset(rdataset)
+        if (
+            name in self.delegations
+            and node.get_rdataset(self.zone.rdclass, dns.rdatatype.NS) is None
+        ):
+            # Storing the rdataset removed the NS rdataset (a CNAME displaces
+            # other data), so this is no longer a delegation point.
+            node.flags &= ~NodeFlags.DELEGATION  # type: ignore
+            self.delegations.discard(name)
+            self.update_glue_flag(name, False)
 
     def delete_rdataset(
         self,
